@@ -9,6 +9,7 @@ import (
 
 	"golang.org/x/tools/go/packages"
 	"golang.org/x/tools/go/ssa"
+	"golang.org/x/tools/go/ssa/ssautil"
 )
 
 func init() {
@@ -837,8 +838,52 @@ func runC15(c *Ctx) {
 			}
 		}
 	}
+	// goroutines started on the module's behalf inside the dependency (errors.Group.Go, a worker pool): functions outside the
+	// standard library that contain a go statement, and their static callers
+	spawns := map[*ssa.Function]bool{}
+	var nonStd []*ssa.Function
+	for f := range ssautil.AllFunctions(c.Prog) {
+		if len(f.Blocks) == 0 || isStdlib(fnPkgPath(f)) {
+			continue
+		}
+		nonStd = append(nonStd, f)
+		for _, b := range f.Blocks {
+			for _, in := range b.Instrs {
+				if _, ok := in.(*ssa.Go); ok {
+					spawns[f] = true
+				}
+			}
+		}
+	}
+	for changed := true; changed; {
+		changed = false
+		for _, f := range nonStd {
+			if spawns[f] {
+				continue
+			}
+			allCalls(f, func(call ssa.CallInstruction) {
+				if callee := call.Common().StaticCallee(); callee != nil && spawns[callee] && !spawns[f] {
+					spawns[f] = true
+					changed = true
+				}
+			})
+		}
+	}
+	for _, f := range ri.module() {
+		allCalls(f, func(call ssa.CallInstruction) {
+			callee := call.Common().StaticCallee()
+			if callee == nil || !spawns[callee] || strings.HasPrefix(fnPkgPath(callee), modPath) {
+				return
+			}
+			sched++
+			c.Fail("R15.3", "goroutines started through "+qualifiedFuncName(callee)+" in "+shortFn(f), call.Pos(),
+				"the callee starts goroutines: what they append, report or write is ordered by the scheduler, not by the specification",
+				"a specification with two or more invalid patterns: the diagnostics come out in completion order")
+		})
+	}
+	c.Extra("dependency_functions_that_start_goroutines", len(spawns))
 	if sched == 0 {
-		c.Pass("R15.3", "no go statement, channel operation or WaitGroup in reachable module code", token.NoPos, fmt.Sprintf("%d module functions", len(ri.module())))
+		c.Pass("R15.3", "no go statement, channel operation or WaitGroup in reachable module code, and no call of a dependency function that starts goroutines", token.NoPos, fmt.Sprintf("%d module functions", len(ri.module())))
 	}
 }
 
